@@ -58,10 +58,27 @@ fn table_suite() -> SuiteReport {
     })
 }
 
+/// Sizes far beyond any picture format (one dimension around 2^12 .. 2^17).
+fn extreme_item(seed: u64, i: u64, acc: &mut Acc) {
+    const BIG: [usize; 16] = [4095, 4096, 4097, 4098, 8192, 8194, 16384, 32768, 65535, 65536, 65537, 65538, 65546, 131072, 131073, 131082];
+    let big = BIG[(i % 16) as usize];
+    let small = (i / 16 % 12) as usize; // 0..=11 (incl. 0 rows; width 0 is not an image)
+    let wide = (i / 192) % 2 == 0;
+    let (w, h) = if wide { (big, small) } else { (small.max(1), big) };
+    for s in [1u8, 5, 12] {
+        if let Err(m) = one(seed, w, h, s) {
+            acc.fail(json!({"kind":"params","w":w,"h":h,"strength":s}), m);
+            return;
+        }
+        acc.count(true);
+    }
+}
+
 pub fn run(ctx: &Ctx) -> i32 {
     let (wmax, hmax) = ctx.tier.pick((96u64, 64u64), (300u64, 200u64));
     let seed = ctx.seed;
     let mut reports = vec![super::regression_suite(ctx), table_suite()];
+    reports.push(exhaustive_suite(ctx, "extreme_sizes", 384, &move |i, acc| extreme_item(seed, i, acc)));
     reports.push(exhaustive_suite(ctx, "size_strength_grid", wmax * (hmax + 1), &move |i, acc| grid_item(seed, wmax, i, acc)));
     let mut extra = Map::new();
     extra.insert("grid".into(), json!(format!("widths 1..={} x heights 0..={} x strengths 1..=12", wmax, hmax)));
@@ -79,7 +96,7 @@ pub fn run(ctx: &Ctx) -> i32 {
 
 pub fn replay(suite: &str, case: &Value) -> Option<Verdict> {
     match suite {
-        "size_strength_grid" => {
+        "size_strength_grid" | "extreme_sizes" => {
             let w = case["w"].as_u64()? as usize;
             let h = case["h"].as_u64()? as usize;
             let s = case["strength"].as_u64()? as u8;
